@@ -162,11 +162,14 @@ def op_imap(rng, uuid_hex, addr, shared=False):
 class Ctx:
     """Per-thread generation context: own string ids, own pids (disjoint across threads by construction)."""
 
-    def __init__(self, thread_index, tid):
+    def __init__(self, thread_index, tid, peers=None):
         self.ti = thread_index
         self.tid = tid
         self.nstr = 0
         self.npid = 0
+        # tids of the simulated threads (this one included): when given, records that NAME a thread (terminate,
+        # new-thread, sampler thread-info) sometimes name a live one, not only strangers
+        self.peers = peers or []
 
     def new_string_id(self):
         self.nstr += 1
@@ -203,12 +206,13 @@ def gen_ops(rng, ctx, n_ops, mix=None, depth=0):
         elif f == 'perf':
             nfr = rng.randint(0, 9)
             rows = [[rng.randrange(1, 1 << 40) for _ in range(4)] for _ in range((nfr + 3) // 4)]
-            ops.append(op_sample(rng, thd=(ctx.new_pid(), ctx.tid) if rng.chance(0.5) else None,
+            ops.append(op_sample(rng, thd=(ctx.new_pid(), rng.pick(ctx.peers) if ctx.peers and rng.chance(0.4) else ctx.tid) if rng.chance(0.5) else None,
                                  uhdr=(rng.randrange(0, 512), nfr) if rng.chance(0.7) else None, udata=rows))
         elif f == 'tracedom':
             r = rng.random()
             if r < 0.3:
-                ops.append(op_newthread(rng, 900000 + ctx.new_pid(), ctx.new_pid(), rng.ident()))
+                born = rng.pick(ctx.peers) if ctx.peers and rng.chance(0.3) else 900000 + ctx.new_pid()
+                ops.append(op_newthread(rng, born, ctx.new_pid(), rng.ident()))
             elif r < 0.5:
                 ops.append(op_exec(rng, ctx.new_pid(), rng.ident()))
             elif r < 0.65:
@@ -217,8 +221,9 @@ def gen_ops(rng, ctx, n_ops, mix=None, depth=0):
             elif r < 0.8:
                 ops.append(kernel.text_one('TRACE_STRING_PROC_EXIT', rng.ident()))
             elif r < 0.9:
-                ops.append({'k': 'one', 'name': 'TRACE_DATA_THREAD_TERMINATE', 'q': 0,
-                            'a': [800000 + rng.randrange(50), 0, 0, 0]})
+                victim = rng.pick(ctx.peers) if ctx.peers and rng.chance(0.6) else 800000 + rng.randrange(50)
+                ops.append({'k': 'one', 'name': 'TRACE_DATA_THREAD_TERMINATE', 'q': rng.pick([0, 0, 3]),
+                            'a': [victim, 0, 0, 0]})
             else:
                 ops.append({'k': 'one', 'name': 'TRACE_DATA_THREAD_TERMINATE_PID', 'q': 0,
                             'a': [ctx.new_pid(), rng.word(), 0, 0]})
@@ -241,12 +246,12 @@ def gen_ops(rng, ctx, n_ops, mix=None, depth=0):
     return ops
 
 
-def gen_threads(rng, nthreads, ops_lo=1, ops_hi=8, mix=None):
+def gen_threads(rng, nthreads, ops_lo=1, ops_hi=8, mix=None, peers=False):
     threads = []
+    tids = [100 + ti * 17 + rng.randrange(0, 9) for ti in range(nthreads)]
     for ti in range(nthreads):
-        tid = 100 + ti * 17 + rng.randrange(0, 9)
-        ctx = Ctx(ti, tid)
-        threads.append({'tid': tid, 'ops': gen_ops(rng, ctx, rng.randint(ops_lo, ops_hi), mix)})
+        ctx = Ctx(ti, tids[ti], tids if peers else None)
+        threads.append({'tid': tids[ti], 'ops': gen_ops(rng, ctx, rng.randint(ops_lo, ops_hi), mix)})
     return threads
 
 
